@@ -248,6 +248,14 @@ void World::exec_track_op(const Step& s)
         if (field == F_FILE_BYTES)
             field = F_TITLE;
         auto donor = gen_snapshot(s.vseed, std::max(1, s.size), plan.cfg.gf, ++uniq);
+        if (arg(4) == 1)
+        {
+            // a clearing call: every optional absent, every list empty (rich generator settings never produce one)
+            auto path = donor.relative_path;
+            donor = dj::track_snapshot{};
+            donor.relative_path = path;
+            probes.hit("setter_clearing_call");
+        }
         if (!donor.relative_path)
             donor.relative_path = "set/path" + std::to_string(uniq) + ".mp3";
         if (field == F_RELATIVE_PATH)
